@@ -55,7 +55,6 @@ type c04Result struct {
 	Files   int      `json:"files"`
 }
 
-
 // framesOf keeps the function names of one goroutine dump, top of stack first.
 func framesOf(stack string, n int) []string {
 	var out []string
